@@ -68,6 +68,10 @@ MUTANTS = [
     M("c02-zp-half-trunc", "C02", "break", [(MAXOPT, "        zeropoint = torch.round(-rmin / scale).to(torch.int8)", "        zeropoint = (-rmin / scale + 0.5).to(torch.int8)")], "C02.R5"),
     M("c07-transpose-stale-axis", "C07", "break", [(OPS, "        out_axis = 0 if out_axis == -1 else -1", "        out_axis = 0 if out_axis == input.ndim - 1 else -1")], "C07.R7"),
     M("c07-mm-via-kernel-linear-convention", "C07", "break", [(OPS, "            out_data = torch._int_mm(input._data, other._data)\n", "            return torch.ops.quanto.qbytes_mm(input._data, other._data.t(), input._scale * other._scale.t())\n            out_data = torch._int_mm(input._data, other._data)\n")], None),
+    # ---------------- view() on operands (F27 / F28 reintroduced)
+    M("c07-intmm-view-again", "C07", "break", [(MM, "out_data = torch._int_mm(activations.reshape(-1, in_features), weights)", "out_data = torch._int_mm(activations.view(-1, in_features), weights)")], "C07.R9"),
+    M("c11-backward-view-again", "C11", "break", [(FUNC, "input.reshape(-1, in_features))", "input.view(-1, in_features))")], "C11.R8"),
+    M("c02-group-view", "C02", "break", [(GROUP, "        return base.reshape([-1, group_size])", "        return base.view(-1, group_size)")], "C02.R4"),
     # ---------------- idiom refactors that the second batch of independent patches exposed
     M("c14-refactor-group-demorgan", "C14", "refactor", [(GROUP, "    if group_size > axis_numel or axis_numel % group_size != 0:", "    if not (group_size <= axis_numel and axis_numel % group_size == 0):")]),
     M("c14-group-guard-weakened", "C14", "break", [(GROUP, "    if group_size > axis_numel or axis_numel % group_size != 0:", "    if group_size > axis_numel and axis_numel % group_size != 0:")], "C14.R1"),
